@@ -96,6 +96,12 @@ CLAIMED.update({
                 note="The 'assembles and runs natively' clause cannot be decided by a solver: the claim is about the instruction semantics of the ops the backend produced, with vx/x86sem.py (mov/add/sub/imul/and/or/xor/lea/push/pop) in the trusted base. Pipelines that report failure (out of registers, imm32 overflow) are accepted outcomes."),
 })
 
+CLAIMED.update({
+    "C23": dict(cat="translation_validation", design="DESIGN.md §4 C23",
+                text="Translation validation (M3) of the LLVM backend on the emitted text: a generated catalogue of llvm-dialect modules (every integer binop x every overflow/exact/disjoint flag variant, flagged-then-unflagged histories in one function / a later function / a later module of the same process, all icmp/fcmp predicates, trunc/zext/sext with flags, select, fneg, float binops with fast-math flags, signed-zero/NaN/inf/denormal float constants, SYMBOLIC integer constants pushed through create_constant, acyclic CFGs with block arguments incl. swapping phis and both edges to one block, alloca/store/load, direct calls) is translated by the real convert_module; the printed LLVM IR is accepted by LLVM's parser+verifier and parsed back into instruction records; an LLVM LangRef model with poison and UB (vx/llsem.py) runs the source ops and the emitted instructions on SYMBOLIC arguments and z3 decides refinement (source defined => target defined and bit-identical) for all arguments and constant values.",
+                note="LLVM's optimiser/codegen ('compiled code returns') is outside a solver's reach: it is exercised concretely only - counterexamples are replayed with MCJIT, and the model itself is validated against native runs on boundary inputs (validate-model obligations; a mismatch is a harness error, never a violation). Modules the backend refuses (fcmp _false/_true raise in llvmlite) are outside the property."),
+})
+
 NOT_APPLICABLE = {
     "C05": "custom assembly formats: the quantifier is over ~80 dialects' op definitions/format programs; no data dimension for a solver beyond what C04/C06 cover for leaves (DESIGN §5)",
     "C17": "pass x corpus-module cross product: deciding it means running each pair concretely; no symbolic dimension (DESIGN §5)",
